@@ -3,10 +3,10 @@ from vf.core import Query
 
 META = {
     "level": "other",
-    "explanation": "Relative to the compression function (replaced by a stub that logs the blocks it is given), the real MD4/MD5 Init/Update/Final and SHA-256/SHA-512 Update/Final are verified by induction over update calls: from an ARBITRARY context satisfying the representation invariant (arbitrary 61-bit byte counter = any message length, arbitrary tail) and arbitrary input of symbolic length <= 130 at every alignment 0..7, Update compresses exactly the whole blocks of tail||data in order, keeps the remainder, advances the counter with carry; Final emits the RFC padding (0x80, zeros, little-endian bit length, one or two blocks); Init gives the RFC initial state. This covers every message length and every split. HMAC-SHA1 (real alg-hmac-sha1.c) is compared with an RFC 2104 reference over an ideal-hash model of SHA-1 for key lengths around the block size.",
-    "functions": ["MD4_Init", "MD4_Update", "MD4_Final", "MD5_Init", "MD5_Update", "MD5_Final", "SHA256_Update", "SHA256_Final", "SHA256_Pad", "SHA512_Update", "SHA512_Final", "SHA512_Pad", "hmac_sha1_process_data"],
+    "explanation": "Relative to the compression function (replaced by a stub that logs the blocks it is given), the real MD4/MD5 Init/Update/Final and SHA-1/SHA-256/SHA-512 Update/Final are verified by induction over update calls: from an ARBITRARY context satisfying the representation invariant (arbitrary 61-bit byte counter = any message length, arbitrary tail) and arbitrary input of symbolic length <= 130 at every alignment 0..7, Update compresses exactly the whole blocks of tail||data in order, keeps the remainder, advances the counter with carry; Final emits the RFC padding (0x80, zeros, little-endian bit length, one or two blocks); Init gives the RFC initial state. This covers every message length and every split. HMAC-SHA1 (real alg-hmac-sha1.c) is compared with an RFC 2104 reference over an ideal-hash model of SHA-1 for key lengths around the block size.",
+    "functions": ["MD4_Init", "MD4_Update", "MD4_Final", "MD5_Init", "MD5_Update", "MD5_Final", "SHA256_Update", "SHA256_Final", "SHA256_Pad", "SHA512_Update", "SHA512_Final", "SHA512_Pad", "sha1_process_bytes", "sha1_finish_ctx", "hmac_sha1_process_data"],
     "bounds": {"input per Update": "0..130 bytes symbolic (quick) / 0..200 (thorough)", "tail length": "case split, enumerated: 0,1,55,56,63 + 2 seeded values (quick), all 64 (thorough)", "counter": "all values", "alignment": "0,3 (quick) / 0,1,3,7 (thorough)", "HMAC key": "lengths 0, 20, 63, 64, 65, 80"},
-    "outside": ["the compression functions themselves (MD4/MD5/SHA-1/SHA-2/Streebog round wiring): a miter of SHA256_Transform against FIPS 180-4 timed out on all four back ends even with 32 symbolic bits (DESIGN.md C02 layer 3); they rest on the repo's KATs", "SHA-1 and Streebog Update/Final framing, HMAC-SHA256, PBKDF2, SHA256_Init/SHA512_Init constants (same inductive scheme; not built)", "Update calls with more than 130 bytes (the bulk loop is covered for 0, 1, 2 iterations)"],
+    "outside": ["the compression functions themselves (MD4/MD5/SHA-1/SHA-2/Streebog round wiring): a miter of SHA256_Transform against FIPS 180-4 timed out on all four back ends even with 32 symbolic bits (DESIGN.md C02 layer 3); they rest on the repo's KATs", "Streebog Update/Final framing, HMAC-SHA256, PBKDF2, sha1_init_ctx constants, SHA256_Init/SHA512_Init constants (same inductive scheme; not built)", "Update calls with more than 130 bytes (the bulk loop is covered for 0, 1, 2 iterations)"],
     "assumptions": ["the compression stub may change the state arbitrarily (sound: the assertions do not depend on state values)"],
     "trusted": [],
     "claim": "For MD4 and MD5: buffering, bulk path, padding and length encoding are correct for every message length and every chunking (inductive step decided by SAT from an arbitrary invariant-satisfying context), relative to the compression function; HMAC-SHA1 key handling follows RFC 2104 at the block-size boundary.",
@@ -52,6 +52,25 @@ def sha2_queries(kind, maxl, timeout, useds, aligns):
     return qs
 
 
+def sha1_queries(maxl, timeout, useds, aligns):
+    unit = ("alg-sha1.c", ["__CPROVER_file_local_alg_sha1_c_sha1_do_transform"], {"export_static": True})
+    qs = []
+    for u in useds:
+        jobs = []
+        for ctag, c0 in (("lo", "0x00001200u"), ("hi", "0xfffffe00u")):
+            jobs.append(("final-u%d-%s" % (u, ctag), ["Q_FINAL", "USED=%d" % u, "ALIGN=0", "COUNT0HI=" + c0]))
+            for a in aligns:
+                jobs.append(("step-u%d-a%d-%s" % (u, a, ctag), ["Q_STEP", "USED=%d" % u, "ALIGN=%d" % a, "COUNT0HI=" + c0]))
+        for qn, d in jobs:
+            q = Query("c16-sha1-%s" % qn, "sha1_step.c", units=[unit], models=["libc.c", "block_log.c"],
+                      defs=["T_SHA1L", "MAXL=%d" % maxl] + d, unwind=6,
+                      loops=[("^harness$|^logblk$", None, max(maxl + 10, 70), False), ("sha1_finish_ctx$", None, 70, False),
+                             ("sha1_process_bytes$", None, 5, False)], flags=["--object-bits", "12"], timeout=timeout)
+            q.loops_optional = True
+            qs.append(q)
+    return qs
+
+
 def queries(tier, seed, build):
     import random
     rnd = random.Random(seed)
@@ -68,6 +87,7 @@ def queries(tier, seed, build):
     u256 = [0, 55, 56, 63] + ([rnd.randrange(1, 55)] if tier == "quick" else list(range(1, 55)) + list(range(57, 63)))
     u512 = [0, 111, 112, 127] + ([rnd.randrange(1, 111)] if tier == "quick" else list(range(1, 111)) + list(range(113, 127)))
     qs += sha2_queries("sha256", 130 if tier == "quick" else 200, to, sorted(set(u256)), [0] if tier == "quick" else aligns)
+    qs += sha1_queries(130 if tier == "quick" else 200, to, sorted(set(u256)), [0] if tier == "quick" else aligns)
     qs += sha2_queries("sha512", 260 if tier == "quick" else 300, to, sorted(set(u512)), [0] if tier == "quick" else aligns)
     for kl in (0, 20, 63, 64, 65, 80):
         q = Query("c16-hmac-sha1-k%d" % kl, "hmac_sha1_ref.c", units=["alg-hmac-sha1.c"], models=["libc.c", "digest_uf.c"],
